@@ -215,6 +215,39 @@ def run(ctx):
     ctx.check(pair_ok and len(assigns) == 2, 'C01-rule', 'generated transitions pair rule, offset-before and type correctly', f,
               'a generated transition combines the wrong rule date, the wrong offset for the local->UTC conversion or the wrong '
               'type: ' + '; '.join(detail), construct='rule:pairing', detail='; '.join(detail)[:200])
+    # both transitions of a generated year are appended together: once the earlier one has been pushed no path leaves the
+    # iteration (or the helper the year was factored into) without pushing the later one
+    from .loader import _reach_from
+    n_tog = 0
+    for (u2, f2) in ctx.scope(f):
+        pushes = [x for x in walk(f2) if x.get('kind') == 'CXXMemberCallExpr' and callee(x) and callee(x)[1] in ('push_back', 'emplace_back')
+                  and callee(x)[2] is not None and 'Transition' in (dtype(callee(x)[2]) or qtype(callee(x)[2]) or '')]
+        if len(pushes) < 2:
+            continue
+        g2 = ctx.cfg(f2)
+        heads = [n for n in g2.live if n.kind == 'loop' and n.ast is not None and all(any(a is n.ast for a in ancestors(p)) for p in pushes)]
+        stops = [g2.exit] + list(g2.returns) + heads
+        # loop exits: nodes outside the loop reached from inside
+        for h in heads:
+            for n in g2.live:
+                if n.ast is not None and n.kind in ('stmt', 'cond') and not any(a is h.ast for a in ancestors(n.ast)) and n.ast is not h.ast:
+                    stops.append(n)
+        for i, p1 in enumerate(pushes):
+            for p2 in pushes:
+                if p1 is p2:
+                    continue
+                n1, n2 = g2.nodes_for(p1), g2.nodes_for(p2)
+                if not n1 or not n2:
+                    continue
+                # p2 follows p1 within the iteration?
+                if _reach_from(g2, [m for n in n1 for (m, _) in n.succs], n2, cut=heads):
+                    n_tog += 1
+                    leak = _reach_from(g2, [m for n in n1 for (m, _) in n.succs], stops, cut=n2)
+                    ctx.check(not leak, 'C01-rule', 'the later transition of a year is appended whenever the earlier one is', p1,
+                              'after the earlier transition of a generated year has been appended, the iteration can end without the '
+                              'later one: the last generated year lacks a transition that lookups of its civil times rely on',
+                              construct='rule:together')
+    ctx.check(n_tog >= 1, 'C01-rule', 'the two appends of a generated year found', f, 'found %d ordered pairs' % n_tog, construct='rule:together:count')
     # Load: prev_civil_sec with the previous type, civil_sec with the new one
     kl = G.one('cctz::TimeZoneInfo::Load', 'ZoneInfoSource')
     u, f = G.defs[kl]
@@ -240,7 +273,7 @@ def run(ctx):
     ctx.check(ok, 'C01-rule', 'each transition: previous civil second under the type in force before it, civil second under its own type', f,
               'Load computes prev_civil_sec/civil_sec with the wrong transition type (or not starting from the default type)',
               construct='rule:civil')
-    ctx.minimum('C01-rule', 2)
+    ctx.minimum('C01-rule', 4)
 
     # ---- C01-days: the day-of-year a footer date denotes, by abstract interpretation of TransOffset
     #      on specification-chosen input partitions (intervals, not points)
